@@ -1703,9 +1703,14 @@ static void checkLookatFrame(long k)
   // ---- lookat(eye, point, up)
   {
     const char *FAM = "lookat";
-    const V eye     = D::mkv(genPoint(r, 3));
+    // a third of the scenes is scaled as a whole (micro-units .. kilo-units): the frame of a scene does not depend on
+    // the unit it is measured in
+    const LD scale  = r.chance(1, 3) ? logUniform(r, sizeof(S) == 4 ? 1e-6L : 1e-10L, 1e3L) : 1;
+    const V eye     = D::mkv(ref::mul(genPoint(r, 3), scale));
     ref::V dir      = hostileAxis(r);
-    LD dst          = logUniform(r, 0.5L, 8);
+    LD dst          = logUniform(r, 0.5L, 8) * scale;
+    if (scale != 1)
+      vh::count("lookat_scaled_scenes");
     const V point   = D::mkv(ref::add(D::rv(eye), ref::mul(dir, dst)));
     const ref::V eyer = D::rv(eye), ptr = D::rv(point);
     const ref::V Z    = ref::normalize(ref::sub(ptr, eyer));
